@@ -28,6 +28,7 @@ inductive Prog (K V C E : Type) (α : Type) where
   | set  (k : K) (v : V) (κ : Bool → Prog K V C E α)        -- `false` = ErrExceedGasLimit
   | del  (k : K) (κ : Prog K V C E α)
   | iter (lo hi : Option K) (asc : Bool) (κ : List (K × Option V) → Prog K V C E α)
+  | iterAll (lo hi : Option K) (asc : Bool) (κ : List (K × Option V) → Prog K V C E α)  -- `IterateRangeAll`: also the pending keys
   | getv (ver : Int) (k : K) (κ : Option V → Prog K V C E α)   -- versioned read (height−1 records)
   | gas  (κ : Int → Prog K V C E α)                          -- ConsumedGas()
   | burn (amount : Int) (κ : Prog K V C E α)                 -- ConsumeUpfront / VerifySig / Storage / Contract gas
@@ -51,6 +52,7 @@ def Prog.run (cfg : Cfg K V) : Prog K V C E α → St K V → Vol C V → E → 
   | .set k v κ, s, m, e => let r := s.set cfg k v; (κ (r.2 == .ok)).run cfg r.1 m e
   | .del k κ, s, m, e => κ.run cfg (s.del cfg k) m e
   | .iter lo hi asc κ, s, m, e => let r := s.iter cfg lo hi asc; (κ r.2).run cfg r.1 m e
+  | .iterAll lo hi asc κ, s, m, e => let r := s.iterAll cfg lo hi asc; (κ r.2).run cfg r.1 m e
   | .getv ver k κ, s, m, e => (κ (s.tree.getVersioned ver k)).run cfg s m e
   | .gas κ, s, m, e => (κ s.gas.consumed).run cfg s m e
   | .burn a κ, s, m, e => κ.run cfg { s with gas := s.gas.consumeAlways a } m e
@@ -66,6 +68,7 @@ def Prog.EnvFree : Prog K V C E α → Prop
   | .set _ _ κ => ∀ x, (κ x).EnvFree
   | .del _ κ => κ.EnvFree
   | .iter _ _ _ κ => ∀ x, (κ x).EnvFree
+  | .iterAll _ _ _ κ => ∀ x, (κ x).EnvFree
   | .getv _ _ κ => ∀ x, (κ x).EnvFree
   | .gas κ => ∀ x, (κ x).EnvFree
   | .burn _ κ => κ.EnvFree
@@ -81,6 +84,7 @@ def Prog.NoVset : Prog K V C E α → Prop
   | .set _ _ κ => ∀ x, (κ x).NoVset
   | .del _ κ => κ.NoVset
   | .iter _ _ _ κ => ∀ x, (κ x).NoVset
+  | .iterAll _ _ _ κ => ∀ x, (κ x).NoVset
   | .getv _ _ κ => ∀ x, (κ x).NoVset
   | .gas κ => ∀ x, (κ x).NoVset
   | .burn _ κ => κ.NoVset
